@@ -1747,6 +1747,206 @@ example : PolicySpec .numPrefix [] [[108, 49]] [76, 49] (addTableEntry .numPrefi
 #guard (registerAll (addTableEntry .numPrefix []) [([97], 1)] [([65], 10), ([36, 48, 36, 65], 11)]).1
   == [.add [36, 48, 36, 65], .add [36, 48, 36, 36, 48, 36, 65]]   -- "A" -> "$0$A", the source's own "$0$A" -> "$0$$0$A"
 
+/-! ## §4c the executable spec checker applied to the decisions of the REAL code; generated dictionary keys (follow-up) -/
+
+private theorem leastFree_spec (xref name : Str) (keys : List Str) (n : Str) (h : leastFree xref name keys n = true) :
+    ∃ i, n = cand xref name i ∧ lower (cand xref name i) ∉ keys ∧ ∀ j, j < i → lower (cand xref name j) ∈ keys := by
+  simp only [leastFree, List.any_eq_true, List.mem_range, Bool.and_eq_true, beq_iff_eq, Bool.not_eq_true',
+    List.all_eq_true] at h
+  obtain ⟨i, _, ⟨hn, hfree⟩, hall⟩ := h
+  refine ⟨i, hn, ?_, fun j hj => ?_⟩
+  · intro hm
+    have : keys.contains (lower (cand xref name i)) = true := List.contains_iff_mem.mpr hm
+    rw [this] at hfree; cases hfree
+  · exact List.contains_iff_mem.mp (hall j hj)
+
+/-- the executable checker is sound: a decision it accepts meets the abstract `PolicySpec`.  The driver applies it to the
+    decisions the REAL `add_table_entry` / `add_collection_entry` took (correspondence stream X6), so the real code is compared
+    with the specification directly, not only with the hand model -/
+theorem decide_spec_sound (pol : Policy) (xref : Str) (keys : List Str) (name : Str) (d : Decision)
+    (h : decideSpec pol xref keys name d = true) : PolicySpec pol xref keys name d := by
+  cases pol with
+  | keep =>
+    simp only [decideSpec] at h
+    refine ⟨fun hm => ?_, fun hm => ?_⟩
+    · rw [if_pos (List.contains_iff_mem.mpr hm)] at h
+      cases d with
+      | useExisting x => exact ⟨x, rfl⟩
+      | add n => cases h
+      | error => cases h
+    · have : keys.contains (lower name) = false := by
+        cases hc : keys.contains (lower name) with
+        | false => rfl
+        | true => exact absurd (List.contains_iff_mem.mp hc) hm
+      rw [this] at h
+      simpa using h
+  | xrefPrefix =>
+    simp only [decideSpec] at h
+    cases d with
+    | add n =>
+      obtain ⟨i, hn, hf, hl⟩ := leastFree_spec xref name keys n h
+      exact ⟨i, by rw [hn], hf, hl⟩
+    | useExisting x => cases h
+    | error => cases h
+  | numPrefix =>
+    simp only [decideSpec] at h
+    refine ⟨fun hm => ?_, fun hm => ?_⟩
+    · have : keys.contains (lower name) = false := by
+        cases hc : keys.contains (lower name) with
+        | false => rfl
+        | true => exact absurd (List.contains_iff_mem.mp hc) hm
+      rw [this] at h
+      simpa using h
+    · rw [if_pos (List.contains_iff_mem.mpr hm)] at h
+      cases d with
+      | add n =>
+        obtain ⟨i, hn, hf, hl⟩ := leastFree_spec [] name keys n h
+        exact ⟨i, by rw [hn], hf, hl⟩
+      | useExisting x => cases h
+      | error => cases h
+
+/-- … and over a whole run: the accepted sequence of real decisions is a run of the specification -/
+theorem spec_run_sound (pol : Policy) (xref : Str) :
+    ∀ (keys : List Str) (es : List (Str × Nat)) (ds : List Decision),
+      specRunB pol xref keys es ds = true → SpecRun (PolicySpec pol xref) keys es ds := by
+  intro keys es
+  induction es generalizing keys with
+  | nil =>
+    intro ds h
+    cases ds with
+    | nil => trivial
+    | cons d r => simp [specRunB] at h
+  | cons e rest ih =>
+    intro ds h
+    obtain ⟨name, hh⟩ := e
+    cases ds with
+    | nil => simp [specRunB] at h
+    | cons d r =>
+      simp only [specRunB, Bool.and_eq_true] at h
+      exact ⟨decide_spec_sound pol xref keys name d h.1, ih _ r h.2⟩
+
+-- the checker accepts what the model decides (so it is not trivially false) and rejects the decisions of seeded change C17-m5:
+-- KEEP that adds "Steel" beside the existing "steel", NUM_PREFIX that does not rename it
+#guard decideSpec .keep [] [[115, 116, 101, 101, 108]] [83, 116, 101, 101, 108] (.useExisting 7)
+#guard decideSpec .keep [] [[115, 116, 101, 101, 108]] [83, 116, 101, 101, 108] (.add [83, 116, 101, 101, 108]) == false
+#guard decideSpec .numPrefix [] [[115, 116, 101, 101, 108]] [83, 116, 101, 101, 108] (.add [83, 116, 101, 101, 108]) == false
+#guard decideSpec .numPrefix [] [[115, 116, 101, 101, 108]] [83, 116, 101, 101, 108] (.add [36, 48, 36, 83, 116, 101, 101, 108])
+#guard specRunB .numPrefix [] [[97]] [([65], 10), ([36, 48, 36, 65], 11)] (registerAll (addTableEntry .numPrefix []) [([97], 1)] [([65], 10), ([36, 48, 36, 65], 11)]).1
+
+/-- `next_underlay_key(lambda k: k not in D)`: for any injective key format and ANY position of the per-document counter (a document
+    loaded from a file starts it again although its dictionaries are filled) the key is not in the dictionary, it is the first
+    such key from the counter on, and the loop ends after at most |D| + 1 draws (pigeonhole, no fuel) -/
+theorem next_key_fresh (fmt : Nat → Str) (hf : ∀ i j, fmt i = fmt j → i = j) (keys : List Str) (c : Nat) :
+    nextKey true fmt hf keys c ∉ keys ∧
+    ∃ i, nextKey true fmt hf keys c = fmt i ∧ c ≤ i ∧ i ≤ c + keys.length ∧ ∀ j, c ≤ j → j < i → fmt j ∈ keys := by
+  unfold nextKey nextKeyIndex
+  obtain ⟨a, b, c', d⟩ := searchFrom_spec (fun i => !true || !keys.contains (fmt i)) (c + keys.length) c
+    (exists_free_from fmt hf keys c true)
+  refine ⟨?_, _, rfl, b, c', fun j h1 h2 => ?_⟩
+  · simpa using a
+  · have := d j h1 h2
+    simpa using this
+
+/-- regression fact about the UNCHECKED call `next_underlay_key()` (seeded change C17-m6): the key is whatever the counter says, so
+    a restarted counter returns a key the dictionary already holds -/
+theorem next_key_unchecked_returns_counter (fmt : Nat → Str) (hf : ∀ i j, fmt i = fmt j → i = j) (keys : List Str) (c : Nat) :
+    nextKey false fmt hf keys c = fmt c := by
+  unfold nextKey nextKeyIndex
+  obtain ⟨_, b, _, d⟩ := searchFrom_spec (fun i => !false || !keys.contains (fmt i)) (c + keys.length) c
+    (exists_free_from fmt hf keys c false)
+  congr 1
+  rcases Nat.eq_or_lt_of_le b with e | e
+  · exact e.symm
+  · have := d c (Nat.le_refl _) e
+    simp at this
+
+/-- the code under test tests the generated key against the dictionary it stores the copied underlay definition in (flag extracted
+    from the AST of `Underlay.map_underlay_def`), so `next_key_fresh` is about the code as it is: the copied definition never
+    replaces an entry of the target's ACAD_PDFDEFINITIONS / ACAD_DWFDEFINITIONS / ACAD_DGNDEFINITIONS -/
+theorem underlay_key_of_code_fresh (fmt : Nat → Str) (hf : ∀ i j, fmt i = fmt j → i = j) (keys : List Str) (c : Nat) :
+    nextKey XrefOverrides.underlayKeyChecked fmt hf keys c ∉ keys := by
+  have h : XrefOverrides.underlayKeyChecked = true := by decide
+  rw [h]
+  exact (next_key_fresh fmt hf keys c).1
+
+private theorem importPass_not_added (adds : List (Nat × Nat)) (t : Nat) :
+    ∀ (rest pending : List Nat), (∀ e ∈ adds, e.2 = t → e.1 ∉ rest) → t ∉ pending → t ∉ importPass adds pending rest := by
+  intro rest
+  induction rest with
+  | nil => intro pending _ h; exact h
+  | cons u r ih =>
+    intro pending hedge h
+    simp only [importPass]
+    apply ih
+    · intro e he h2 hm; exact hedge e he h2 (List.mem_cons_of_mem _ hm)
+    · unfold importStep
+      split
+      · intro hm
+        rcases List.mem_append.mp hm with c | c
+        · exact h (List.mem_filter.mp c).1
+        · simp only [List.mem_map, List.mem_filter, decide_eq_true_eq] at c
+          obtain ⟨e, ⟨he, he1⟩, he2⟩ := c
+          exact hedge e he he2 (he1 ▸ List.mem_cons_self ..)
+      · exact h
+
+/-- ONE pass in an order that respects the requirement edges serves every requirement: whatever is pending at the start and
+    whichever edges fire, no table of the order has unserved requirements afterwards.  (An order that imports `styles` before
+    `linetypes` although linetypes add required styles does not respect the edges: seeded change C17-m4.) -/
+theorem import_pass_complete (adds : List (Nat × Nat)) :
+    ∀ (order pending : List Nat), orderRespects order adds = true → ∀ t ∈ order, t ∉ importPass adds pending order := by
+  intro order
+  induction order with
+  | nil => intro _ _ t ht; simp at ht
+  | cons u rest ih =>
+    intro pending hr t ht
+    simp only [orderRespects, Bool.and_eq_true, List.all_eq_true, Bool.or_eq_true, bne_iff_ne, ne_eq, Bool.not_eq_true'] at hr
+    obtain ⟨hu, hrest⟩ := hr
+    simp only [importPass]
+    rcases List.mem_cons.mp ht with c | c
+    · subst c
+      apply importPass_not_added adds t rest
+      · intro e he h2 hm
+        rcases hu e he with d | d
+        · exact d h2
+        · have : (t :: rest).contains e.1 = true := List.contains_iff_mem.mpr (List.mem_cons_of_mem _ hm)
+          rw [this] at d; cases d
+      · unfold importStep
+        split
+        · intro hm
+          rcases List.mem_append.mp hm with d | d
+          · have d2 := (List.mem_filter.mp d).2
+            simp at d2
+          · simp only [List.mem_map, List.mem_filter, decide_eq_true_eq] at d
+            obtain ⟨e, ⟨he, he1⟩, he2⟩ := d
+            rcases hu e he with f | f
+            · exact f he2
+            · have : (t :: rest).contains e.1 = true := List.contains_iff_mem.mpr (he1 ▸ List.mem_cons_self ..)
+              rw [this] at f; cases f
+        · rename_i hc
+          intro hm
+          exact hc (List.contains_iff_mem.mpr hm)
+    · exact ih (importStep adds pending u) hrest t c
+
+/-- the Importer add-on of the code under test: the order of `_import_required_table_entries` and the requirement edges of
+    `import_table`, both extracted from the AST, respect each other — dimstyles before layers / linetypes / styles, layers before
+    linetypes, linetypes before styles and shape files — so by `import_pass_complete` the single pass of `finalize()` leaves no
+    required table entry behind -/
+theorem importer_order_closed :
+    orderRespects XrefOverrides.importerOrder XrefOverrides.importerAdds = true ∧
+    ∀ pending, ∀ t ∈ XrefOverrides.importerOrder, t ∉ importPass XrefOverrides.importerAdds pending XrefOverrides.importerOrder := by
+  have h : orderRespects XrefOverrides.importerOrder XrefOverrides.importerAdds = true := by decide
+  exact ⟨h, fun pending => import_pass_complete _ _ pending h⟩
+
+-- the seeded order (styles before linetypes) is rejected, and a pass in that order leaves the style requirement unserved
+#guard orderRespects [0, 1, 3, 2, 4] [(1, 2), (0, 3), (0, 2), (0, 5), (2, 4), (2, 3)] == false
+#guard importPass [(1, 2), (0, 3), (0, 2), (0, 5), (2, 4), (2, 3)] [1] [0, 1, 3, 2, 4] == [3]
+#guard importPass [(1, 2), (0, 3), (0, 2), (0, 5), (2, 4), (2, 3)] [1] [0, 1, 2, 3, 4] == []
+
+-- non-vacuity: an injective format exists (the decimal digits), and a restarted counter meets a taken key
+example : ∀ i j, natDigits i = natDigits j → i = j := natDigits_inj
+#guard nextKey true natDigits natDigits_inj [[49], [50]] 1 = [51]
+#guard nextKey false natDigits natDigits_inj [[49], [50]] 1 = [49]
+
 /-! ## §5b the restored block record through the whole transfer (session 3) -/
 
 /-- `block_record_restore` carried through the WHOLE transfer of the code under test (induction over the registration list, then the
